@@ -1,0 +1,8 @@
+//go:build !verif
+
+// Package verifhook provides named yield points used by the out-of-tree
+// verification harness. Without the `verif` build tag Point does nothing.
+package verifhook
+
+// Point is a no-op in regular builds.
+func Point(name string) {}
